@@ -801,11 +801,15 @@ macro_rules! relational_rounds {
 }
 //@ob fn="<PIDWrapper<T,E> as Updatable<E>>::update (relational)" at=src/devices/wrappers.rs:144 bounded="1 round from fresh; gain formula PIDKValues::evaluate replaced by a deterministic uninterpreted mix (kani::stub)" clause="the value the motor receives equals, bit for bit, the output of a stand-alone CommandPID (same gains, initial command, initial state/time) fed the same time/state/command seen at the terminal; nothing is sent when the stand-alone PID has no output"
 relational_rounds!(c20_pid_matches_standalone_1_round, 1);
-//@ob fn="<PIDWrapper<T,E> as Updatable<E>>::update (relational)" at=src/devices/wrappers.rs:144 bounded="2 rounds from fresh; gain formula PIDKValues::evaluate replaced by a deterministic uninterpreted mix (kani::stub); timestamps within +-2^61 (A7)" clause="in each of two consecutive rounds (arbitrary terminal slots, possibly nothing seen) the value the motor receives equals, bit for bit, the output of a stand-alone CommandPID fed the same times/states/commands; the two PIDs' outputs stay bit-equal (velocity commands produce their first output here)"
-relational_rounds!(c20_pid_matches_standalone_2_rounds, 2);
-//@ob fn="<PIDWrapper<T,E> as Updatable<E>>::update (relational)" at=src/devices/wrappers.rs:144 tier=thorough bounded="3 rounds from fresh; gain formula PIDKValues::evaluate replaced by a deterministic uninterpreted mix (kani::stub); timestamps within +-2^61 (A7)" clause="in each of three consecutive rounds the value the motor receives equals, bit for bit, the output of a stand-alone CommandPID fed the same times/states/commands (acceleration commands produce their first output here)"
-relational_rounds!(c20_pid_matches_standalone_3_rounds, 3);
-
+// Two and three relational rounds (`relational_rounds!(.., 2)` / `(.., 3)`) were tried and are NOT obligations: from
+// the second round on, both PIDs execute CommandPID::update's inline f32 divisions/multiplications on equal inputs
+// and the SAT solver has to prove the two bit-blasted circuits equivalent (DESIGN T6/T7): one 2-round run finished
+// in 82 s, two others did not finish in 25 min; 3 rounds: no result in 40 min.  They are not needed: by induction
+// over rounds, [equal PID states before the round] + [c20_pid_update_third_round: in every round the PID's inputs
+// (clock, state getter, command getter, follow) are exactly the terminal's data and the PID is updated before the
+// motor, which gets the PID's output bit-equal] + [round 1 relational: the wrapper's PID has the same gains,
+// command and input getter as the stand-alone one, and is updated exactly once] + [CommandPID::update is a
+// deterministic function of its state and inputs, A1/C11] give equal PID states and equal motor values after it.
 //@ob fn="PIDWrapper::new + <PIDWrapper<T,E> as Updatable<E>>::update" at=src/devices/wrappers.rs:98 cbmc="--max-field-sensitivity-array-size 1024" clause="glue between the two halves of the decomposition: the wrapper produced by the REAL new (Rc-backed shared objects, all arguments symbolic) satisfies the same first-round contract of update for arbitrary terminal slots and motor outcomes"
 #[kani::proof]
 #[kani::unwind(3)]
